@@ -67,6 +67,13 @@ func TestTieBreakSequence(t *testing.T) {
 		if directed || rapid.IntRange(0, 3).Draw(t, "firstLate") != 0 {
 			aSlot = w - rapid.IntRange(1, 3).Draw(t, "firstLateBy")
 		}
+		// a third of the cases: the first block lies exactly one round back, so that the competitor of the CURRENT slot comes from the same
+		// generator in a later slot (double forging, must be discarded whatever the reception times are). Seed regression showed that this
+		// coincidence (seeded C07-g) was otherwise met only at some seeds.
+		if rapid.IntRange(0, 2).Draw(t, "sameOwnerOneRoundLater") == 0 {
+			aSlot = w - nVal
+			evid.R.Label("tiebreak-sequence-first-block-one-round-back", 1)
+		}
 		a, err := n.Apply(node.Spec{AbsSlot: aSlot, Script: node.Script{Salt: 100}})
 		if err != nil {
 			t.Fatalf("first block: %v", err)
